@@ -80,6 +80,9 @@ BATCHES = {
 		arxiv& ArTraits::make_nvp("extensions", extensions_);""", """		typename array::extensions_type extensions_{this->extensions()};
 		arxiv& ArTraits::make_nvp("extensions", extensions_);""", 1),
         ("array_ref.hpp", "		return *(this->base_ + (idx*this->stride() - this->offset()));", "		return *((this->base_ - this->offset()) + idx*this->stride());", 1),
+        ("array_ref.hpp", """		ns_ = xs_.from_linear(n_ + n);
+		n_ += n;""", """		n_ += n;
+		ns_ = xs_.from_linear(n_);""", 1),
     ],
 }
 
